@@ -1,10 +1,8 @@
 (* Extract_sched.v -- extraction of the schedule model (C09) to OCaml.
-   Directives: ExtrOcamlBasic, ExtrOcamlNatInt (nat -> int), ExtrOcamlZBigInt. *)
-From Coq Require Import Extraction ExtrOcamlBasic ExtrOcamlNatInt ExtrOcamlZBigInt.
+   Directives: see ExtractCommon.v (ExtrOcamlBasic, ExtrOcamlNatInt, ExtrOcamlZBigInt, Z.ggcd). *)
+From Amgcl Require Import ExtractCommon.
 From Coq Require Import QArith Qcanon.
 From Amgcl Require Import Scalar QcInst Vec Crs Kernels MatOps Relax Sched GsSched IluSched.
-Extraction Blacklist List String Int Nat.
-Set Extraction Optimize.
 Separate Extraction
   QcInst.QcS Scalar.is_zero Scalar.smax Scalar.smin
   Vec Crs Kernels MatOps Relax Sched GsSched IluSched.
